@@ -3,6 +3,7 @@ package ramfsx
 import (
 	"fmt"
 	"sync"
+	"sync/atomic"
 	"time"
 
 	p9p "github.com/frobnitzem/go-p9p"
@@ -123,11 +124,14 @@ type RaceCase struct {
 	Rounds   int
 	Dir      bool // create directories instead of files
 	Depth    int  // 0: in the root, 1: in /a
+	// Spin: instead of racing creates, session 0 creates Rounds*30 names one after the other
+	// while the other sessions spin on walking to the name that is about to appear
+	Spin bool `json:",omitempty"`
 }
 
 func GenRace(t *rapid.T) RaceCase {
 	return RaceCase{Sessions: rapid.IntRange(2, 8).Draw(t, "sessions"), Rounds: rapid.IntRange(5, 60).Draw(t, "rounds"),
-		Dir: rapid.Bool().Draw(t, "dir"), Depth: rapid.IntRange(0, 1).Draw(t, "depth")}
+		Dir: rapid.Bool().Draw(t, "dir"), Depth: rapid.IntRange(0, 1).Draw(t, "depth"), Spin: rapid.IntRange(0, 2).Draw(t, "spin") == 0}
 }
 
 // RunRace: in every round all sessions clone the directory and create the same
@@ -157,6 +161,9 @@ func RunRace(c RaceCase) harn.Result {
 				return harn.Fail("HARNESS clone: %v", r.err)
 			}
 		}
+	}
+	if c.Spin {
+		return runSpin(c, w)
 	}
 	for round := 0; round < c.Rounds; round++ {
 		name := fmt.Sprintf("n%d", round%3)
@@ -213,4 +220,71 @@ func RunRace(c RaceCase) harn.Result {
 		return harn.Fail("after the create races: %v", err)
 	}
 	return harn.Result{NonTrivial: true, Classes: []string{"create_race"}}
+}
+
+// runSpin: one creator, the others walk to each name the instant it is linked in.
+func runSpin(c RaceCase, w *world) harn.Result {
+	total := c.Rounds * 30
+	var cur int64 // index of the name being created
+	var stop int32
+	var wg sync.WaitGroup
+	var mu sync.Mutex
+	var bad string
+	fail := func(format string, a ...any) {
+		mu.Lock()
+		if bad == "" {
+			bad = fmt.Sprintf(format, a...)
+		}
+		mu.Unlock()
+	}
+	hits := int64(0)
+	for s := 1; s < c.Sessions; s++ {
+		wg.Add(1)
+		go func(s int) {
+			defer wg.Done()
+			for atomic.LoadInt32(&stop) == 0 {
+				i := atomic.LoadInt64(&cur)
+				r := w.do(Op{S: s, Kind: "walk", Fid: 5, Newfid: 7, Names: []string{fmt.Sprintf("w%d", i)}})
+				if r.pan != "" {
+					fail("session %d walking to a name that is being created panicked: %s", s, r.pan)
+					return
+				}
+				if r.err == nil && len(r.qids) == 1 {
+					atomic.AddInt64(&hits, 1)
+					if r2 := w.do(Op{S: s, Kind: "clunk", Fid: 7}); r2.pan != "" {
+						fail("clunk panicked: %s", r2.pan)
+						return
+					}
+				}
+			}
+		}(s)
+	}
+	for i := 0; i < total; i++ {
+		atomic.StoreInt64(&cur, int64(i))
+		if r := w.do(Op{S: 0, Kind: "walk", Fid: 5, Newfid: 6}); r.err != nil || r.pan != "" {
+			fail("clone failed: %v %s", r.err, r.pan)
+			break
+		}
+		if r := w.do(Op{S: 0, Kind: "create", Fid: 6, Name: fmt.Sprintf("w%d", i), Dir: c.Dir, Mode: 2}); r.err != nil || r.pan != "" {
+			fail("create of a fresh name failed: %v %s", r.err, r.pan)
+			break
+		}
+		if r := w.do(Op{S: 0, Kind: "clunk", Fid: 6}); r.pan != "" {
+			fail("clunk panicked: %s", r.pan)
+			break
+		}
+	}
+	atomic.StoreInt32(&stop, 1)
+	wg.Wait()
+	if bad != "" {
+		return harn.Fail("%s", bad)
+	}
+	for _, s := range w.sess {
+		s.Stop(nil)
+	}
+	if err := w.validate(); err != nil {
+		return harn.Fail("after %d creations with %d sessions walking to each new name (%d walks found it): %v", total, c.Sessions-1, hits, err)
+	}
+	res := harn.Result{NonTrivial: true, Classes: []string{"create_vs_walk_spin"}}
+	return res
 }
